@@ -5,6 +5,7 @@ import (
 	"fmt"
 	"hash/fnv"
 	"os"
+	"os/exec"
 	"path/filepath"
 	"runtime/debug"
 	"sort"
@@ -240,6 +241,10 @@ func Main(t *testing.T) {
 	if !ok {
 		t.Fatalf("unknown property %q", prop)
 	}
+	if op := os.Getenv("VERIF_ONESHOT"); op != "" {
+		oneshot(t, op)
+		return
+	}
 	if rp := os.Getenv("VERIF_REPLAY"); rp != "" {
 		replay(t, P, rp)
 		return
@@ -338,10 +343,21 @@ func Main(t *testing.T) {
 				st.RunHashes[fmt.Sprintf("%d/%d", run, st.Cases)] = fmt.Sprintf("%x/%s", st.caseHash, vc)
 			}
 			if v == nil {
+				if hp, ok := P.(interface{ HistorySample(*Plan, int64) bool }); ok && hp.HistorySample(cp, i) {
+					v = historyCheck(t, cp, st, outPath)
+					if v != nil {
+						cp.History = &History{Seed: st.Seed, Tier: st.Tier, Worker: st.Worker, Workers: workers, Index: i}
+					}
+				}
+			}
+			if v == nil {
 				continue
 			}
 			cp.Violation = v
-			min := Shrink(t, P, cp, v)
+			min := cp
+			if cp.History == nil {
+				min = Shrink(t, P, cp, v)
+			}
 			if k := known.match(min); k != "" {
 				if !knownSeen[k] {
 					knownSeen[k] = true
@@ -399,10 +415,95 @@ func slimPlan(p *Plan) *Plan {
 	return c
 }
 
+// outcomeSummary is what the history check compares: outcome class and canonical result.
+func outcomeSummary(o *Outcome) string {
+	return o.ErrClass() + "\n" + o.Result.Render() + o.Stdout
+}
+
+// oneshot executes variant 0 of a plan in this (fresh) process and prints its summary.
+func oneshot(t *testing.T, path string) {
+	p, err := ReadPlan(path)
+	if err != nil {
+		t.Fatalf("read plan: %v", err)
+	}
+	o := Exec(t, p, 0, ExecOpts{})
+	b, _ := json.Marshal(outcomeSummary(o))
+	fmt.Printf("ONESHOT %s\n", b)
+}
+
+// historyCheck evaluates the plan once more in this long-lived process and once in
+// a fresh process; the answers must agree (the answer to a query may not depend on
+// which other queries the process evaluated before).
+func historyCheck(t *testing.T, p *Plan, st *Stats, outPath string) *Violation {
+	o := Exec(t, p, 0, ExecOpts{})
+	here := outcomeSummary(o)
+	dir := os.TempDir()
+	if outPath != "" {
+		dir = filepath.Dir(outPath)
+	}
+	f := filepath.Join(dir, fmt.Sprintf("oneshot-%d.json", os.Getpid()))
+	cp := *p
+	cp.Violation, cp.EventLog = nil, nil
+	if err := cp.WriteFile(f); err != nil {
+		panic(HarnessLimit{Msg: "history check: " + err.Error()})
+	}
+	defer os.Remove(f)
+	cmd := exec.Command(os.Args[0], "-test.run", "^TestSim$", "-test.count", "1", "-test.timeout", "120s")
+	cmd.Env = append(os.Environ(), "VERIF_ONESHOT="+f, "VERIF_REPLAY=", "VERIF_OUT=", "VERIF_MARK=")
+	outb, err := cmd.Output()
+	var fresh string
+	found := false
+	for _, ln := range strings.Split(string(outb), "\n") {
+		if strings.HasPrefix(ln, "ONESHOT ") {
+			if json.Unmarshal([]byte(strings.TrimPrefix(ln, "ONESHOT ")), &fresh) == nil {
+				found = true
+			}
+		}
+	}
+	if !found {
+		panic(HarnessLimit{Msg: fmt.Sprintf("history check: the fresh process gave no answer (%v): %s", err, clip(string(outb), 500))})
+	}
+	if st != nil {
+		st.Execs++
+		st.Probe("answer_compared_with_a_fresh_process")
+	}
+	if fresh == here {
+		return nil
+	}
+	return &Violation{Property: p.Property, Clause: p.Property + "(e:history-independence)",
+		Expected: "the answer a fresh process gives: " + clip(fresh, 500),
+		Observed: "after the plans this worker had executed before: " + clip(here, 500),
+		Detail:   "query " + p.Query}
+}
+
 func replay(t *testing.T, P Property, path string) {
 	p, err := ReadPlan(path)
 	if err != nil {
 		t.Fatalf("read replay file: %v", err)
+	}
+	if h := p.History; h != nil {
+		// Rebuild the worker's state: generate and check its plans 0..Index-1 again.
+		for i := int64(0); i < h.Index; i++ {
+			run := uint64(h.Worker) + uint64(i)*h.Workers
+			plan := P.Gen(planRng(h.Seed, P.ID(), run), run, h.Tier)
+			plan.Property, plan.Seed, plan.Run = P.ID(), h.Seed, run
+			for _, cp := range P.Expand(t, plan) {
+				func() {
+					defer func() { _ = recover() }()
+					P.Check(t, cp, nil)
+				}()
+			}
+		}
+		v := historyCheck(t, p, nil, "")
+		if v == nil {
+			fmt.Printf("REPLAY-OK property=%s file=%s\n", P.ID(), path)
+			return
+		}
+		b, _ := json.MarshalIndent(v, "", " ")
+		fmt.Printf("%s\n", b)
+		fmt.Printf("REPLAY-VIOLATION property=%s clause=%s same_as_recorded=%v\n", P.ID(), v.Clause, p.Violation != nil && p.Violation.Class() == v.Class())
+		fmt.Printf("VIOLATION property=%s replay=%s\n", P.ID(), path)
+		os.Exit(1)
 	}
 	defer func() {
 		if r := recover(); r != nil {
